@@ -113,7 +113,7 @@ impl Property for C02 {
         ]
     }
     fn cases(&self, tier: Tier) -> u32 {
-        tier.pick(2000, 40000)
+        tier.pick(2000, 20000)
     }
     fn inprocess(&self) -> bool {
         true
